@@ -564,6 +564,8 @@ def metadata_savers(ctx):
     from ..core import walk_local as _wl
     out = []
     for fi in ctx.P.all_funcs():
+        if ctx.absorbed(fi):
+            continue
         if not fi.module.name.startswith("xandikos.store") or (fi.cls is not None and fi.cls.qualname.endswith("FileBasedCollectionMetadata")):
             continue
         for n in _wl(fi.node):
